@@ -51,6 +51,11 @@ class Bada3AircraftParameters(BaseAircraftParameters):
     cas_cruise_hi: float | None = None
     cas_cruise_mach: float | None = None
 
+    def __getitem__(self, key: str):
+        """Allow parameters to be looked up by name (`parameters['c_f1']`), as
+        the engine models do, as well as by attribute access."""
+        return getattr(self, key)
+
     def assign_parameters_fromdict(self, parameters: dict):
         """
         Assigns the parameters from a dictionary.
